@@ -73,6 +73,22 @@ META = {
         level_text="Complete enumeration of all small static-sound configurations up to a length bound against an independent transport/interpolator oracle, plus random large cases and command histories under a local trace monitor. Exploration: lengths beyond the bound are sampled.",
         level_note="Trusts the harness transport model (written from the property text) and the Hermite reference; MockInfoBuilder info; position/seek checks allow the 4-frame look-ahead window the property mentions.",
     ),
+    "C05": dict(
+        level="exploration",
+        technique="runtime monitoring: reference-sum monitor for clock time, chunk-boundary oracle for clock-scheduled events, and a history checker for ClockHandle::time() reads under a controlled scheduler that enumerates reader/audio-thread interleavings at hook granularity (plus random schedules)",
+        design_ref="DESIGN.md §3 C05",
+        rule=("Monitor 1 (exact time): random clocks (3 speed units), histories of start/pause/stop/set_speed with immediate and other-clock-scheduled tweens (all easings, zero duration), random callback partitions; after every callback the handle time must lie in the reference interval sum(speed x chunk time) "
+              "(1e-9 for constant speed; for tweens the interval spanned by the speed at the chunk's boundaries, interpolated in the target's unit), paused clocks bit-identical, stopped clocks zero, ticking() correct. "
+              "Monitor 2 (scheduling): a sound start, a volume tween start or a resume_at scheduled for a whole or fractional clock time; the event must begin exactly at the first frame of the internal buffer during which the clock (model: constant speed, start delay, pause window) reaches the time - never later, never while paused or short of it; a dropped clock cancels the waiting sound within 3 callbacks. "
+              "Monitor 3 (handle reads): audio thread running callbacks vs a thread calling time() (and stop()), parked at the hooks between the two stores / two loads; all interleavings enumerated depth-first for (callbacks x reads) up to 2x2 (quick) / 3x3 (thorough) plus random schedules of 6x6; every read must equal a value published before or during it and reads must not go backwards while the clock runs. "
+              "A case is distinct when its history class / schedule trace is new."),
+        domain="speeds 0.5..3000 ticks/s; excluded while listed as known findings: tweens scheduled on the clock's own time (monitor 1); torn reads are counted and reported as the known finding, any other unexplained read is a violation",
+        assumptions=["interleavings are enumerated at hook granularity (between the atomic operations of ClockShared); the operations themselves are atomic", "the other-clock start of a speed tween may be observed one chunk early or late depending on clock update order (modelled as an interval)"],
+        quick=[rel(30)],
+        thorough=[rel(900), dict(engine="tsan", shards=4, budget=120), dict(engine="miri", shards=8, budget=200, parallel=8)],
+        level_text="Reference-model and history-checking monitors over ~10^4..10^6 generated histories plus exhaustive enumeration of reader/writer interleavings at hook granularity for small bounds; exploration.",
+        level_note="Trusts the harness clock model (constant speed / interval for tweens), the hook placement in ClockShared, and the scheduler (one thread runs at a time).",
+    ),
     "C06": dict(
         level="exploration",
         technique="runtime monitoring: trace-specification monitor over kira::Parameter / tweener modulator driven with MockInfoBuilder, independent easing oracle; end-to-end gain envelopes through the renderer",
